@@ -66,12 +66,14 @@ fn key_pool(rng: &mut Rng, n: usize) -> Vec<Address> {
     };
     pool.push(first);
     seen.insert(first);
+    // a third of the pools split at uniformly random bit positions only (mid-depth tries)
+    let uniform_only = rng.chance(1, 3);
     while pool.len() < n {
         let mut k: Address = *rng.pick(&pool);
         if rng.chance(1, 8) {
             k = rng.bytes(32).try_into().unwrap(); // unrelated key
         } else {
-            let bit = match rng.below(10) {
+            let bit = match if uniform_only { 9 } else { rng.below(10) } {
                 0 => 255,
                 1 => 250 + rng.below(6) as usize,
                 2 => 240 + rng.below(16) as usize,
@@ -858,16 +860,21 @@ fn main() {
         with_lanes: false,
         hents: BTreeSet::new(),
     };
-    let (ntrie, ncanon, nlt, neng, nchaos, nops) = if args.thorough { (6000, 2000, 150, 20000, 5000, 250) } else { (700, 250, 20, 2500, 600, 160) };
+    let (ntrie, ncanon, nlt, neng, nchaos, nops) = if args.thorough { (6000, 2000, 150, 20000, 5000, 250) } else { (2400, 800, 40, 8000, 2000, 160) };
+    // a panic of the real code outside the individually caught calls (get / iter / == / Debug) ends
+    // the case and is reported as an oracle failure with the case as replay
     for _ in 0..ntrie {
         let n = rng.range(20, nops) as usize;
-        trie_case(&mut cx, &mut rng, n, false);
+        let r = catch(|| trie_case(&mut cx, &mut rng, n, false));
+        cx.rec.oracle(r.is_ok(), "state-panic", || format!("the case panicked outside insert/remove: {:?}", r.as_ref().err()));
     }
     for _ in 0..ncanon {
-        canon_case(&mut cx, &mut rng);
+        let r = catch(|| canon_case(&mut cx, &mut rng));
+        cx.rec.oracle(r.is_ok(), "state-panic", || format!("the case panicked outside insert/remove: {:?}", r.as_ref().err()));
     }
     for _ in 0..nlt {
-        trie_case(&mut cx, &mut rng, 40, true);
+        let r = catch(|| trie_case(&mut cx, &mut rng, 40, true));
+        cx.rec.oracle(r.is_ok(), "state-panic", || format!("the case panicked outside insert/remove: {:?}", r.as_ref().err()));
     }
     let mut rec = cx.rec;
     for _ in 0..neng {
